@@ -76,6 +76,10 @@ func Addr(node uint64) string { return fmt.Sprintf("passthrough:///n%d", node) }
 // not applied the create entry yet). Reset by the caller.
 var Lacks func(node uint64) bool
 
+// OwnView, when set, gives the placement node `node` itself believes in (a node whose catalogue is ahead of or behind
+// the others); nil result = the common placement. Reset by the caller.
+var OwnView func(node uint64) [][]uint64
+
 // DNode is one simulated node holding one dataset object.
 type DNode struct {
 	ID   uint64
@@ -114,6 +118,13 @@ func NewDatasetCluster(nNodes int, dim uint32, space pb.Space, placement [][]uin
 		}
 		dm := storage.VerifBareDatasetManager(db, nil, conn, nil)
 		m := proto.Clone(meta).(*pb.Dataset)
+		if OwnView != nil {
+			if own := OwnView(id); own != nil {
+				for p := range m.Partitions {
+					m.Partitions[p].NodeIds = append([]uint64{}, own[p]...)
+				}
+			}
+		}
 		ds, err := storage.VerifNewDataset(dsid, *m, db, nil, conn, dm)
 		if err != nil {
 			panic(err)
@@ -125,6 +136,26 @@ func NewDatasetCluster(nNodes int, dim uint32, space pb.Space, placement [][]uin
 		c.Nodes = append(c.Nodes, &DNode{ID: id, Conn: conn, DM: dm, DS: ds})
 	}
 	return c
+}
+
+// AddDataset gives every node a second dataset (id dsid, partitions numbered from firstPartition) with the given
+// placement and returns the per-node objects (index = node id - 1).
+func (c *DCluster) AddDataset(dsid uuid.UUID, dim uint32, space pb.Space, placement [][]uint64, repl uint32, firstPartition int) (*pb.Dataset, []*storage.Dataset) {
+	meta := &pb.Dataset{Id: dsid.Bytes(), Dimension: dim, Space: space, PartitionCount: uint32(len(placement)), ReplicationFactor: repl}
+	for p, nodes := range placement {
+		meta.Partitions = append(meta.Partitions, &pb.Partition{Id: PartitionID(firstPartition + p).Bytes(), NodeIds: append([]uint64{}, nodes...)})
+	}
+	var out []*storage.Dataset
+	for _, n := range c.Nodes {
+		m := proto.Clone(meta).(*pb.Dataset)
+		ds, err := storage.VerifNewDataset(dsid, *m, SharedDB(), nil, n.Conn, n.DM)
+		if err != nil {
+			panic(err)
+		}
+		n.DM.VerifPutDataset(ds)
+		out = append(out, ds)
+	}
+	return meta, out
 }
 
 // Close releases the grpc client conns (lazy, never connected).
